@@ -89,7 +89,7 @@ Lemma it_loop_spec_t : body_tk_ok o body -> forall s l s' ys s'', Jt s s' ->
 Proof.
   intros HB s. induction l as [|v l IH]; intros s' ys s'' HJ H; cbn [it_loop] in H.
   - inversion H; subst. split; [exact HJ|]. split; [reflexivity | constructor].
-  - fold o in H.
+  - fold o in H. rewrite it_tfield_eq in H.
     destruct (select o s' (yield_kw w v)) as [s1|] eqn:E1; [|discriminate].
     destruct (name_of O w v) as [nm|] eqn:En; [|discriminate].
     destruct (indices_of d_target o (tk s1)) as [|t rest] eqn:Et; [discriminate|].
@@ -263,7 +263,7 @@ Theorem break_spec : body_ok o body -> forall n s ys a sf, Inv3 o s ->
   /\ name_of O w (ab_index a) = Some (ab_name a)
   /\ (exists rest, indices_of d_target o (tk sf) = ab_target a :: rest).
 Proof.
-  intros HB n s ys a sf H3 H. unfold iterate_break in H. fold o in H.
+  intros HB n s ys a sf H3 H. unfold iterate_break in H. fold o in H. rewrite it_tfield_eq in H.
   destruct (nth_error (indices_of (it_field w) o (tk s)) n) as [v|] eqn:En.
   2:{ destruct (iterate O w body s) as [[? ?]|]; discriminate. }
   destruct (it_loop O w (tk s) body (firstn n (indices_of (it_field w) o (tk s))) s) as [[ys' s']|] eqn:E; [|discriminate].
